@@ -336,7 +336,53 @@ def lazy_oracle(pos, rec):
     return None
 
 
+def _sample_function(x):
+    return x
+
+
+def remark_values():
+    """values whose own printer already attaches a remark (functions, built-in functions, bound methods,
+    classes outside builtins): the user's comment must appear next to it"""
+    import collections
+    import datetime
+    return [('built-in function', len), ('bound method', [].append), ('function', _sample_function),
+            ('class', collections.OrderedDict), ('class', datetime.date), ('builtin class', int)]
+
+
+def remark_oracle(label, v, wrap, width):
+    import ast
+    from prettyprinter import comment, trailing_comment
+    places = {'top': lambda x: x, 'list': lambda x: [x, 1], 'dictvalue': lambda x: {'k': x}, 'sole': lambda x: [x]}
+    for pname, place in places.items():
+        wrapped = comment(v, 'usernote alpha') if wrap == 'comment' else comment(comment(v, 'usernote alpha'), 'beta')
+        text, ws = PC.impl_pformat(place(wrapped), dict(width=width))
+        plain, _w = PC.impl_pformat(place(v), dict(width=width))
+        if ws:
+            return '%s at %s: warning %s' % (label, pname, ws[0][:120])
+        try:
+            same = ast.dump(ast.parse('(' + text + '\n)', mode='eval')) == ast.dump(ast.parse('(' + plain + '\n)', mode='eval'))
+        except SyntaxError as e:
+            return '%s at %s: not a valid expression (%s):\n%s' % (label, pname, e, text[:200])
+        if not same:
+            return '%s at %s: another syntax tree than uncommented:\n%s\n--- vs ---\n%s' % (label, pname, text[:200], plain[:200])
+        words = ' '.join(t[1:].strip() for t in PC.comments_of(text)).split()
+        need = ['usernote', 'alpha'] + (['beta'] if wrap == 'double' else [])
+        if not is_subseq(need, words) and not all(w in words for w in need):
+            return '%s at %s (width %d): words of the attached comment missing from %r:\n%s' % (label, pname, width, words, text[:200])
+    return None
+
+
 def lazy_extra(run, res):
+    nr = 0
+    for label, v in remark_values():
+        for wrap in ('comment', 'double'):
+            for width in (79, 20):
+                nr += 1
+                msg = remark_oracle(label, v, wrap, width)
+                if msg and len(run.violations) < 6:
+                    run.violation({'kind': 'remark-value-commented', 'label': label, 'wrap': wrap, 'width': width, 'detail': msg})
+    run.count(nr)
+    run.coverage['values_with_a_printer_remark_commented'] = nr
     n = 0
     for pos in LAZY_POSITIONS:
         for rec in lazy_first(pos):
@@ -355,6 +401,10 @@ def main(tier):
 def replay(path):
     with open(path) as f:
         p = json.load(f)
+    if p.get('kind') == 'remark-value-commented':
+        bad = [remark_oracle(l, v, p['wrap'], p['width']) for l, v in remark_values() if l == p['label']]
+        print('oracle:', bad)
+        return 1 if any(bad) else 0
     if p.get('kind') == 'lazy-type-commented-first':
         bad = [lazy_oracle(p['position'], rec) for rec in lazy_first(p['position']) if rec[0] == p['type']]
         print('oracle:', bad)
